@@ -30,13 +30,18 @@ ASSUMPTIONS = ["a quoted value is replayed in the quoted form in which it was se
 HOSTS = ["example.test", "www.example.test", "a.b.example.test", "notexample.test", "example.test.evil.test",
          "xexample.test", "other.test", "sub.other.test", "test", "EXAMPLE.test",
          # a dot of a cookie domain replaced by another character (a '.' taken as a wildcard would match these)
-         "example-test", "wwwxexample.test", "sub.other-test", "b-example.test"]
+         "example-test", "wwwxexample.test", "sub.other-test", "b-example.test",
+         # fully qualified spelling (trailing dot): a Domain that is nothing but dots must not cover these (or anything)
+         "example.test.", "other.test."]
 DOMAINS = ["example.test", ".example.test", "EXAMPLE.TEST", ".Example.Test", "www.example.test", "other.test", ".OTHER.test",
-           "b.example.test"]
+           "b.example.test", ".", ".."]
+# cookie names that are also cookie attribute names: http.cookies cannot hold such a cookie, so it may be dropped - but it
+# must never act as an attribute of the cookie on the line before it (only generated on a line of its own, never first)
+RESERVED = ["domain", "Domain", "path", "version"]
 NAMES = ["a", "b", "c", "sid", "tok", "id", "id2", "id-b", "a.b", "a+"]  # incl. names whose "name=value" text sorts unlike the name
 VALUES = ["1", "2", "xyz", "v", "long" * 8,
           # quoted values as they appear in the Set-Cookie line; what comes back must be one cookie, not more, and no header line
-          '"x; admin=1"', '"y\\015\\012X-Injected: yes"', '"two words"']
+          '"x; admin=1"', '"y\\015\\012X-Injected: yes"', '"two words"', "other.test", "2"]
 
 
 def canon(domain):
@@ -51,7 +56,8 @@ def covers(domain, host):
 
 
 def plan(tier, seed):
-    items = [{"kind": "pairs", "exhaustive": "every (domain form, first target, second target) over 8 domain forms x 10 x 10 hosts"}]
+    items = [{"kind": "pairs", "exhaustive": "every (domain form, first target, second target) over 10 domain forms x 16 x 16 hosts"}]
+    items.append({"kind": "attrnames", "exhaustive": "a cookie named like an attribute (domain, Domain, path, version) on a later Set-Cookie line x 2 values x 2 domain forms x 4 second targets"})
     n = 8000 if tier == "quick" else 600000
     per = 250 if tier == "quick" else 2500
     for s in range(0, n, per):
@@ -68,6 +74,13 @@ def expand(item, seed):
                                      {"host": h2, "set": [], "domain": None, "cookie": None}], "seed": 1}
                     if h1.lower() != h2.lower() and (len(h1) + len(h2)) % 4 == 0:
                         yield {"steps": [{"host": h1, "set": [["a", "1"]], "domain": d, "cookie": None, "redirect_to": h2},
+                                         {"host": h2, "set": [], "domain": None, "cookie": None}], "seed": 1}
+    elif item["kind"] == "attrnames":
+        for nm in RESERVED:
+            for val in ("other.test", "2"):
+                for d in ("example.test", ".Example.Test"):
+                    for h2 in ("www.example.test", "other.test", "sub.other.test", "example.test"):
+                        yield {"steps": [{"host": "example.test", "set": [["sid", "xyz"], [nm, val, "attrname"]], "domain": d, "cookie": None},
                                          {"host": h2, "set": [], "domain": None, "cookie": None}], "seed": 1}
     else:
         for i in range(item["start"], item["start"] + item["count"]):
@@ -97,6 +110,9 @@ def gen(rng):
                 if nm in NAMES:
                     owner[nm] = canon(d)
                     st["set"].append([nm, rng.choice(VALUES[:5]), "nodomain"])
+            if d is not None and st["set"] and rng.random() < 0.12:
+                nm = rng.choice(RESERVED)
+                st["set"].append([nm, "other.test" if nm.lower() == "domain" else rng.choice(("2", "xyz")), "attrname"])
             st["domain"] = d
         if rng.random() < 0.15:
             # the caller overrides the Host header; the jar is still consulted for the host the connection goes to
@@ -125,12 +141,15 @@ def run(sc, choices=None):
             if st.get("host_opt") is not None and st["host_opt"].split(":")[0] not in HOSTS:
                 raise InvalidScenario("host_opt")
             names = [x[0] for x in st.get("set", ())]
-            if len(set(names)) != len(names) or any(n not in NAMES for n in names):
+            if len(set(names)) != len(names) or any(n not in NAMES and n not in RESERVED for n in names):
                 raise InvalidScenario("names")
-            if any(x[1] not in VALUES or (len(x) > 2 and x[2] != "nodomain") for x in st.get("set", ())):
+            if any(x[1] not in VALUES or (len(x) > 2 and x[2] not in ("nodomain", "attrname")) for x in st.get("set", ())):
                 raise InvalidScenario("values")
+            for j, x in enumerate(st.get("set", ())):
+                if (x[0] in RESERVED) != (len(x) > 2 and x[2] == "attrname") or (x[0] in RESERVED and j == 0):
+                    raise InvalidScenario("attribute-named cookies: marked, never on the first line")
             if st.get("domain") is not None:
-                for n in [x[0] for x in st.get("set", ())]:
+                for n in [x[0] for x in st.get("set", ()) if x[0] not in RESERVED]:
                     cd = canon(st["domain"])
                     if owner.setdefault(n, cd) != cd:
                         raise InvalidScenario("name owned by two domains")
@@ -153,6 +172,9 @@ def run(sc, choices=None):
         for ent in st.get("set", ()):
             nm, val = ent[0], ent[1]
             line = f"{nm}={val}"
+            if len(ent) > 2 and ent[2] == "attrname":
+                extra.append(("Set-Cookie", line))
+                continue
             if st.get("domain") is not None and not (len(ent) > 2 and ent[2] == "nodomain"):
                 line += f"; Domain={st['domain']}"
             line += "; Path=/"
@@ -219,13 +241,18 @@ def run(sc, choices=None):
             elif host.lower().endswith(d) or d.endswith(host.lower()) or d in host.lower():
                 if rel == "outside" and cookies:
                     rel = "lookalike"
-        parts = [f"{k}={applicable[k]}" for k in sorted(applicable)]
-        if st.get("cookie"):
-            parts.append(st["cookie"])
-        want = "; ".join(parts) if parts else None
+        optional = {k: v for k, v in applicable.items() if k in RESERVED}
+        applicable = {k: v for k, v in applicable.items() if k not in RESERVED}
+        wants = []
+        for app_ in (applicable, dict(applicable, **optional)):
+            parts = [f"{k}={app_[k]}" for k in sorted(app_)]
+            if st.get("cookie"):
+                parts.append(st["cookie"])
+            wants.append("; ".join(parts) if parts else None)
+        want = wants[0]
         got = R.header_values(peer_.request, "Cookie") if peer_.request else ["<no request>"]
         gotv = got[0] if got else None
-        if len(got) > 1 or gotv != want:
+        if len(got) > 1 or gotv not in wants:
             leaked = [k for k in _names(gotv) if k not in applicable and k not in _names(st.get("cookie"))]
             missing = [k for k in applicable if k not in _names(gotv)]
             if leaked:
@@ -247,6 +274,11 @@ def run(sc, choices=None):
             kept = {x[0]: x[1] for x in st["set"]} if any(len(x) < 3 for x in st["set"]) else {}  # no line names a Domain: nothing kept
             if any(len(x) > 2 for x in st["set"]) and kept:
                 res.probes["domainless_cookie_beside_domain_cookie"] = 1
+            if not canon(st["domain"]).strip("."):
+                kept = {}  # "Domain=." names no domain at all
+                res.probes["domain_of_dots_only"] = 1
+            if any(len(x) > 2 and x[2] == "attrname" for x in st["set"]):
+                res.probes["cookie_named_like_an_attribute"] = 1
             jar.setdefault(canon(st["domain"]), {}).update(kept)
             stored_any = stored_any or bool(kept)
     res.sig = repr(sig)
